@@ -3,8 +3,9 @@
 #   1. Init => IndInv            2. IndInv /\ Next => IndInv'
 cd "$(dirname "$0")"
 out=${1:-/tmp/apalache-out}
-timeout 900 apalache-mc check --out-dir=$out --cinit=CInit --init=Init --inv=IndInv --length=0 ApaPending.tla > $out.1.log 2>&1; a=$?
-timeout 900 apalache-mc check --out-dir=$out --cinit=CInit --init=IndInv --inv=IndInv --length=1 ApaPending.tla > $out.2.log 2>&1; b=$?
+mod=${2:-ApaPending}
+timeout 900 apalache-mc check --out-dir=$out --cinit=CInit --init=Init --inv=IndInv --length=0 $mod.tla > $out.1.log 2>&1; a=$?
+timeout 900 apalache-mc check --out-dir=$out --cinit=CInit --init=IndInv --inv=IndInv --length=1 $mod.tla > $out.2.log 2>&1; b=$?
 grep -h -E "The outcome is|Checker reports|EXITCODE" $out.1.log $out.2.log
 rm -rf $out
 [ $a -eq 0 ] && [ $b -eq 0 ]
